@@ -8,6 +8,7 @@ import Proofs.ChainPoolSys
 import Proofs.ChainSys
 import Proofs.PCQueueProgress
 import Proofs.PCQueueFail
+import Proofs.ChainPoolSysLive
 /-!
 # C17 — Queues and chains deliver each item exactly once, in order, and terminate
 
@@ -519,8 +520,13 @@ theorem steplevel_refines_atomic {σ : Type} (P : Prog σ) (loc0 : Nat → σ) (
     (∀ c c' t, CInv P c → cstep P c t = some c' →
         CInv P c' ∧ (Sys.abs c' = Sys.abs c ∨ astep P (Sys.abs c) t = some (Sys.abs c')))
     ∧ (∀ (c c' : CState σ) t, cintr c t = some c' → c' = c)
-    ∧ (∀ c, CReach P (cinit P loc0) c → CInv P c ∧ AReach P (ainit loc0) (Sys.abs c)) :=
-  ⟨fun _ _ _ h hs => sim_step h hs, fun _ _ _ hs => sim_intr hs, fun _ hr => creach_refines hcap hr⟩
+    ∧ (∀ c, CReach P (cinit P loc0) c → CInv P c ∧ AReach P (ainit loc0) (Sys.abs c)) := by
+  refine ⟨fun c c' t h hs => ?_, fun _ _ _ hs => sim_intr hs, fun _ hr => creach_refines hcap hr⟩
+  obtain ⟨h1, hrel, _⟩ := sim_step h hs
+  refine ⟨h1, ?_⟩
+  rcases hrel with ⟨e, _⟩ | ⟨e, _⟩
+  · exact Or.inl e
+  · exact Or.inr e
 
 /-- **ThreadPool on the step-level queue.**  The ThreadPool as client program (`poolProg`: the user thread produces
 the requests and one poison per worker and joins the workers; worker `i` consumes until poison) running on the
@@ -655,5 +661,69 @@ example :
   decide
 
 end copyfail
+
+/-! ## Part 9: liveness of the composed system
+
+Deadlock freedom and termination are transported from the atomic models to the systems running on the step-level
+queues.  Ingredients (client-generic, `lean/Proofs/PCQueueSysLive.lean`): `steplevel_no_deadlock` — if the atomic
+system can step from `abs c` then the step-level system can step from `c` (an enabled abstract queue operation ⇒
+`queue_progress`; a thread past its critical-section body can always go on; an abstractly enabled `await` on a
+thread that is inside an operation: the awaited predicate is on that thread's local state, which only changes at
+its return, and by `AwaitQuiet` it does not hold in a state from which that thread calls a queue operation, so that
+thread is past its body and can itself progress); `cmeasure_step` — `8 × abstract measure + Σ potentials` strictly
+decreases on every step; `crun_bounded`, `fair_length` — run-level bounds.  The fairness assumption on signals is a
+hypothesis on the run (`InterruptFair E`: at most `E` consecutive EINTR, i.e. finitely many per wait), never an
+axiom; lexicographically: (`cmeasure`, EINTRs still allowed before the next step). -/
+section liveness
+open KV.Sys KV.Chain
+
+/-- **ThreadPool on the step-level queue: no deadlock.**  In every reachable state (arbitrary schedule, arbitrary
+interrupts), unless the denoted `Pool` state says everything has finished, some thread can take a step. -/
+theorem pool_steplevel_no_deadlock {w : Nat} {reqs : List Nat} (hw : 0 < w) (hcap : 0 < cap)
+    {c : CState PLoc} (hr : CReach (poolProg cap w) (cinit (poolProg cap w) (poolLoc0 w reqs)) c)
+    (hnd : (toPool cap w (Sys.abs c)).allDone = false) : ∃ t, cstep (poolProg cap w) c t ≠ none := by
+  obtain ⟨h, ha⟩ := creach_refines (P := poolProg cap w) (fun _ => hcap) hr
+  exact pool_no_deadlock_of hw hcap h (modeLt_reach hr) (pool_areach ha) hnd
+
+/-- **ThreadPool on the step-level queue: termination.**  From every reachable state `c`, for every run `ls`
+(steps of arbitrary threads and EINTR interrupts in any order) ending in `c'`:
+(1) the number of steps is at most `cmeasure c` — however many interrupts occur;
+(2) if the run is interrupt-fair (at most `E` consecutive EINTR) its length is at most `cmeasure c · (E+1) + E`:
+    every interrupt-fair run is finite;
+(3) if no thread can step in `c'` (the run is maximal) then the denoted `Pool` state has finished: every request
+    has been handled exactly once, the queue is empty and every worker has returned. -/
+theorem pool_steplevel_terminates {w : Nat} {reqs : List Nat} (hw : 0 < w) (hcap : 0 < cap)
+    {c : CState PLoc} (hr : CReach (poolProg cap w) (cinit (poolProg cap w) (poolLoc0 w reqs)) c)
+    (ls : List Label) (c' : CState PLoc) (hrun : crun (poolProg cap w) c ls = some c') (E : Nat) :
+    let μ := cmeasure (poolProg cap w) (fun a => (toPool cap w a).measure)
+    countSteps ls + μ c' ≤ μ c
+    ∧ (InterruptFair E 0 ls → ls.length ≤ μ c * (E + 1) + E)
+    ∧ ((∀ t, cstep (poolProg cap w) c' t = none) →
+        let p := toPool cap w (Sys.abs c')
+        p.allDone = true ∧ (p.log.map (·.2)).filterMap Item.val? = reqs ∧ p.q = []) := by
+  intro μ
+  obtain ⟨h, ha⟩ := creach_refines (P := poolProg cap w) (fun _ => hcap) hr
+  have hok : PoolOK cap w reqs (Sys.abs c) := pool_areach ha
+  obtain ⟨h', hok', hle⟩ := crun_bounded (P := poolProg cap w) (amu := fun a => (toPool cap w a).measure)
+    (PoolOK cap w reqs) (fun _ _ _ => poolOK_step) (fun _ _ _ => poolOK_dec) ls c c' h hok hrun
+  have hle' : countSteps ls + μ c' ≤ μ c := hle
+  refine ⟨hle', fun hf => ?_, fun hmax => ?_⟩
+  · have := fair_length E ls 0 (Nat.zero_le _) hf
+    have h1 : countSteps ls ≤ μ c := by omega
+    have : countSteps ls * (E + 1) ≤ μ c * (E + 1) := Nat.mul_le_mul_right _ h1
+    omega
+  · intro p
+    have hml := modeLt_crun ls c c' (modeLt_reach hr) hrun
+    have hdone : p.allDone = true := by
+      cases hd : p.allDone with
+      | true => rfl
+      | false =>
+        obtain ⟨t, ht⟩ := pool_no_deadlock_of hw hcap h' hml hok' hd
+        exact absurd (hmax t) ht
+    obtain ⟨_, _, _, _, _, h6⟩ := pool_exactly_once hw hcap hok'.2
+    obtain ⟨e1, e2, _⟩ := h6 hdone
+    exact ⟨hdone, e1, e2⟩
+
+end liveness
 
 end KV.C17
